@@ -171,9 +171,8 @@ Theorem C19_frame_append : forall st nxt st',
   stk st' = stk st /\ same_io st st' /\
   exists t p, top_addr st = Some t /\ prev_addr st = Some p /\
     ((exists l, prev_node st = Some (NArr l) /\ hp st' = upd (hp st) p (NArr (l ++ [t]))) \/
-     (exists m o o', prev_node st = Some (NObj m) /\ top_node st = Some (NObj o) /\
-                     (o' = o \/ o' = not_self p o) /\
-                     hp st' = upd (hp st) p (NObj (add_missing m o')))).
+     (exists m o, prev_node st = Some (NObj m) /\ top_node st = Some (NObj o) /\
+                   hp st' = upd (hp st) p (NObj (add_missing m o)))).
 Proof. exact frame_append. Qed.
 Print Assumptions C19_frame_append.
 
@@ -316,3 +315,137 @@ Example C19_ex_type_errors :
   forall st, In (Ok st) (step init (OJson (JInt 1)) None) ->
   operands_ok st OLength = false /\ operands_ok st OAppend = false /\ operands_ok st (OAssert AInteger) = true.
 Proof. intros st [E|[]]. inversion E. vm_compute. repeat split; reflexivity. Qed.
+
+(* ---- the acyclicity invariant --------------------------------------------------------------- *)
+
+From JoseV Require Import Cli.FmtAcyclic.
+
+(* -a -i -s -x store references and refuse to close a cycle.  Hence, for ALL programs and ALL
+   states they can reach: every address of the store reads back (the value below it is finite and
+   has no dangling reference), and every stack cell is an address of the store. *)
+Theorem C19_acyclic_init :
+  (forall a, (a < length (hp init))%nat -> value (hp init) a <> None) /\
+  (forall a, In a (stk init) -> (a < length (hp init))%nat).
+Proof. exact acyclic_init. Qed.
+Print Assumptions C19_acyclic_init.
+
+(* preservation: EVERY option, every successful outcome the manual allows *)
+Theorem C19_acyclic_step : forall st o nxt st',
+  ((forall a, (a < length (hp st))%nat -> value (hp st) a <> None) /\
+   (forall a, In a (stk st) -> (a < length (hp st))%nat)) ->
+  In (Ok st') (step st o nxt) ->
+  (forall a, (a < length (hp st'))%nat -> value (hp st') a <> None) /\
+  (forall a, In a (stk st') -> (a < length (hp st'))%nat).
+Proof. exact acyclic_step. Qed.
+Print Assumptions C19_acyclic_step.
+
+(* [reaches init pre rest st]: st is a state after the successful options [pre] of a program
+   [pre ++ rest] (the states [runs] goes through, see C19_exit_index) *)
+Theorem C19_acyclic_reachable : forall pre rest st,
+  reaches init pre rest st ->
+  (forall a, (a < length (hp st))%nat -> value (hp st) a <> None) /\
+  (forall a, In a (stk st) -> (a < length (hp st))%nat).
+Proof. exact reachable_acyclic. Qed.
+Print Assumptions C19_acyclic_reachable.
+
+Theorem C19_acyclic_stack_value : forall pre rest st a,
+  reaches init pre rest st -> In a (stk st) -> exists v, value (hp st) a = Some v.
+Proof. exact reachable_stack_value. Qed.
+Print Assumptions C19_acyclic_stack_value.
+
+(* the two store lemmas behind it.  (1) fuel: what can be read with SOME fuel can be read by
+   [value], i.e. "an acyclic value is never deeper than the number of nodes" *)
+Theorem C19_acyclic_fuel : forall f h a, reify f h a <> None -> value h a <> None.
+Proof. exact rd_value. Qed.
+Print Assumptions C19_acyclic_fuel.
+
+(* (2) one node replaced by any node: if the replaced node reads back afterwards, everything does *)
+Theorem C19_acyclic_guarded_update : forall h p n,
+  (forall a, (a < length h)%nat -> value h a <> None) ->
+  value (upd h p n) p <> None ->
+  forall a, (a < length (upd h p n))%nat -> value (upd h p n) a <> None.
+Proof. exact upd_guard_ok. Qed.
+Print Assumptions C19_acyclic_guarded_update.
+
+(* what the guard of -a -i -s -x does *)
+Theorem C19_acyclic_guard : forall p st' st r,
+  In r (guard_cyc p st' st) ->
+  (r = Ok st' /\ value (hp st') p <> None) \/ (r = Fail (files st) /\ value (hp st') p = None).
+Proof. exact guard_cyc_sound. Qed.
+Print Assumptions C19_acyclic_guard.
+
+(* consequences, in every reachable state (no -X pending where the option is not an assertion:
+   a pending -X adds the documented "silent" failure, nothing else).
+   -o with a TOP: exactly one outcome, success *)
+Theorem C19_acyclic_output : forall pre rest st d nxt t,
+  reaches init pre rest st -> inv st = false -> top_addr st = Some t ->
+  exists v, value (hp st) t = Some v /\ step st (OOutput d) nxt = [Ok (write d (dump v) st)].
+Proof. exact reachable_output. Qed.
+Print Assumptions C19_acyclic_output.
+
+(* -f on an array / object: exactly one outcome, success; no item is unreadable *)
+Theorem C19_acyclic_foreach : forall pre rest st d nxt n,
+  reaches init pre rest st -> inv st = false -> top_node st = Some n -> (forall v, n <> NScal v) ->
+  exists text, foreach_lines (hp st) n = Some (Some text) /\
+               step st (OForeach d) nxt = [Ok (write d text st)].
+Proof. exact reachable_foreach. Qed.
+Print Assumptions C19_acyclic_foreach.
+
+(* no assertion, -E included, ever has the verdict "undefined" *)
+Theorem C19_acyclic_holds : forall pre rest st a, reaches init pre rest st -> holds a st <> VUndef.
+Proof. exact reachable_holds. Qed.
+Print Assumptions C19_acyclic_holds.
+
+(* -E with both operands: decided by the comparison of the two values and the pending -X alone *)
+Theorem C19_acyclic_equal : forall pre rest st nxt t p,
+  reaches init pre rest st -> top_addr st = Some t -> prev_addr st = Some p ->
+  exists x y, value (hp st) t = Some x /\ value (hp st) p = Some y /\
+    step st (OAssert AEqual) nxt =
+      if xorb (inv st) (jequal x y) then [Ok (set_inv false st)] else [Fail (files st)].
+Proof. exact reachable_equal. Qed.
+Print Assumptions C19_acyclic_equal.
+
+(* -c with a TOP: exactly one outcome, success *)
+Theorem C19_acyclic_copy : forall pre rest st nxt t,
+  reaches init pre rest st -> inv st = false -> top_addr st = Some t ->
+  exists v, value (hp st) t = Some v /\ step st OCopy nxt = [Ok (push_val v st)].
+Proof. exact reachable_copy. Qed.
+Print Assumptions C19_acyclic_copy.
+
+(* -Y with a TOP: the value is found; only the documented choice for scalars remains *)
+Theorem C19_acyclic_b64dump : forall pre rest st nxt t,
+  reaches init pre rest st -> inv st = false -> top_addr st = Some t ->
+  exists v, value (hp st) t = Some v /\
+    step st OB64Dump nxt =
+      if is_container v then [Ok (push_val (JStr (b64url_enc (dump v))) st)]
+      else [Fail (files st); Ok (push_val (JStr (b64url_enc (dump v))) st)].
+Proof. exact reachable_b64dump. Qed.
+Print Assumptions C19_acyclic_b64dump.
+
+(* -Q never fails *)
+Theorem C19_acyclic_query : forall pre rest st nxt,
+  reaches init pre rest st -> inv st = false ->
+  exists vs, mapM (value (hp st)) (stk st) = Some vs /\
+    step st OQuery nxt = [Ok (push_val (JArr vs) st); Ok (push_val (JArr (rev vs)) st)].
+Proof. exact reachable_query. Qed.
+Print Assumptions C19_acyclic_query.
+
+(* the hypotheses are met by a non-trivial state: after  -j '{}' -j '[1]' -s x  the store holds a
+   shared node (cell 2 is TOP and the member "x" of PREV); and an option that would close a cycle
+   ( [] appended to the object that is its own member ) fails, here as option 5 *)
+Example C19_ex_acyclic :
+  let st := mkst [2; 0]%nat [NObj [(s2b "x", 2%nat)]; NScal (JInt 1); NArr [1%nat]] false [] [] in
+  reaches init [OJson (JObj []); OJson (JArr [JInt 1]); OSet (s2b "x")] [] st /\
+  inv st = false /\ top_addr st = Some 2%nat /\ prev_addr st = Some 0%nat /\
+  top_node st = Some (NArr [1%nat]) /\
+  value (hp st) 0%nat = Some (JObj [(s2b "x", JArr [JInt 1])]) /\
+  runs [OJson (JObj []); OJson (JArr []); OSet (s2b "x"); OMove 1; OAppend; OOutput DStdout] = [(5, [], [])] /\
+  runs [OJson (JObj []); OJson (JArr []); OSet (s2b "x"); OMove 1; OUnwind; OOutput DStdout]
+    = [(0, s2b "[]", [])].
+Proof.
+  cbv zeta. split.
+  - eapply reaches_cons; [vm_compute; left; reflexivity|].
+    eapply reaches_cons; [vm_compute; left; reflexivity|].
+    eapply reaches_cons; [vm_compute; left; reflexivity|]. apply reaches_nil.
+  - vm_compute. repeat split; reflexivity.
+Qed.
